@@ -31,6 +31,9 @@ var (
 	ErrClientCertificateNotVerified = stderrors.New("client sent certificate but did not verify it")
 	ErrClientCertificateRequired    = stderrors.New("server required client verification, but got none")
 	ErrClientNoMatchingSRTPProfile  = stderrors.New("server responded with SRTP Profile we do not support")
+	ErrProtocolDowngradeDetected    = stderrors.New(
+		"server negotiated DTLS 1.2 although both sides support DTLS 1.3: the ClientHello was modified in transit",
+	)
 	ErrClientRequiredButNoServerEMS = stderrors.New(
 		"client required Extended Master Secret extension, but server does not support it",
 	)
